@@ -4,4 +4,4 @@ p=$1; patch=$2
 cd /repo || exit 2
 git apply "$patch" || { echo "patch does not apply"; exit 2; }
 (cd /verif && ./check "$p" quick 2>&1 | grep -v "^  replayed" | cut -c1-220 | tail -12)
-git -C /repo checkout -- . 
+git -C /repo apply -R "$patch"
